@@ -4,7 +4,7 @@ PROPS[pid]["rules"] = [(rule id, floor of decided instances, selector over insta
 Floors are the numbers counted on the tree the rules were written against: a rule that suddenly
 matches fewer sites is a broken check (exit 2), never a silent pass.
 """
-from . import wf, dp, dt, he, gl, ts, ee, sl, wp
+from . import wf, dp, dt, he, gl, ts, ee, sl, wp, fs, ic, nb, im, rn, mp
 
 
 def has(*subs):
@@ -25,11 +25,105 @@ RULES = {
     "EE": {"run": ee.run},
     "SL": {"run": sl.run, "needs": ["ffi", "cli"]},
     "WP": {"run": wp.run},
+    "FS": {"run": fs.run},
+    "IC": {"run": ic.run},
+    "NB": {"run": nb.run},
+    "IM": {"run": im.run},
+    "RN": {"run": rn.run},
+    "MP": {"run": mp.run, "needs": ["cli"]},
 }
 
-TB = ["rustc nightly front end + MIR construction", "rsdd-sa fact dump", "frozen rule tables"]
+BDD_T = ("BddNode", "BddPtr")
+SDD_T = ("BinarySDD", "SddOr", "SddAnd", "SddPtr")
 
 PROPS = {
+    "C02": {
+        "level": "other",
+        "rules": [("GL", 2, has("GL3")), ("TS", 3, has("TS-OCC")), ("HE", 4, has(*BDD_T)),
+                  ("RN", 4, has("RN1", "RN2")), ("IM", 20, has("IM3", "IM4", "IM2"))],
+        "explanation": "Structural necessary conditions of ROBDD canonicity: the unique table returns a stored node only "
+                       "for an equal request (hash equal AND (by-hash OR structural equality), GL3) and must be able to "
+                       "find every stored node (only occupied elements are re-inserted, re-homed with probe length 0, "
+                       "TS-OCC); BddNode Hash/Eq read exactly the Freeze fields and BddPtr compares by address (HE); "
+                       "logical operations reduce (low == high returns the child) and normalise the high edge before "
+                       "interning (RN1, RN2); nodes enter only through the table and pointer variants are built only from "
+                       "table results or existing nodes (IM3, IM4). Not decided: the iff between pointer and function "
+                       "equality in general, order-respect on every path, robin-hood probe-length arithmetic.",
+    },
+    "C04": {
+        "level": "other",
+        "rules": [("RN", 8, has("RN3")), ("HE", 6, has(*SDD_T)), ("GL", 2, has("GL3")), ("TS", 3, has("TS-OCC")),
+                  ("IM", 10, has("IM4"))],
+        "explanation": "Order of SDD canonicalisation steps on every path to the unique tables (trim, compress, trim, sort, "
+                       "sign-normalise, intern: RN3), Hash/Eq agreement of BinarySDD/SddOr/SddAnd and identity Hash/Eq of "
+                       "SddPtr (HE), the shared unique-table rules (GL3, TS-OCC), nodes enter only through the tables (IM4). "
+                       "Not decided: that primes form a partition, stay on their vtree side, that no smaller equivalent "
+                       "exists — semantic facts about run-time element lists.",
+    },
+    "C05": {
+        "level": "other",
+        "rules": [("DP", 22, has("compile_logical_expr", "compile_plan", "BottomUpPlan::")),
+                  ("FS", 8, has("compile_cnf", "or_lst", "and_lst", "from_dtree")), ("DT", 1, has("BottomUpBuilder::or:"))],
+        "explanation": "Every variant of LogicalExpr and BottomUpPlan is compiled by its namesake operation with operands in "
+                       "order, a dtree becomes a conjunction of clause disjunctions of the literal's own label and polarity "
+                       "with the empty clause false (DP; none of these arms is executed by the test-suite); empty-formula / "
+                       "empty-clause / satisfied-literal shortcuts and accumulator seeds of the CNF compilers (FS); the "
+                       "default `or` is De Morgan (DT). Not decided: that clause sorting and merge orders preserve the "
+                       "function (and is AC, which is C01's business).",
+    },
+    "C09": {
+        "level": "other",
+        "rules": [("WP", 16, has("unit_prop")), ("TS", 5, has("TS-STK"))],
+        "explanation": "Every pos/neg watch-list / occurrence-table access in unit_prop.rs is selected by the polarity of "
+                       "the same literal that indexes it, insertions go to the literal's own table, reads keyed by one "
+                       "literal use one side (WP); SATSolver::decide pushes exactly one state on non-UNSAT paths and none on "
+                       "UNSAT, pop pops one, new leaves two (TS-STK) — the structural half of 'pop restores the previous "
+                       "state'. Not decided: soundness and fixpoint of propagation in general, the satisfied flag, hash "
+                       "injectivity.",
+    },
+    "C13": {
+        "level": "other",
+        "rules": [("NB", 38, None), ("FS", 0, has("Polynomial"))],
+        "explanation": "Interval analysis of FiniteField::{new,negate,add,mul,sub} for each of the 7 exported primes with the "
+                       "type invariant v in [0,P-1]: no u128 overflow/underflow (NB); every FiniteField literal is reduced "
+                       "(NB-inv); subtraction borrows the modulus (NB-mod); polynomial coefficient writes are bounded by "
+                       "MAX_COEFFS (NB-poly). Not decided: associativity, commutativity, distributivity, lattice laws of "
+                       "real/complex/Boolean/rational/expected-utility values.",
+    },
+    "C14": {
+        "level": "other",
+        "rules": [("IC", 9, hasnot("repr::cnf::Cnf::from_dimacs"))],
+        "explanation": "Dimension analysis (Index / Count / OneBased): every function called num_vars returns a count, every "
+                       "num_vars field is initialised with a count, label-indexed table sizes are counts (IC). Not decided: "
+                       "permutation-ness of heuristic orders, dtree cutsets, LCA / in-order index arithmetic.",
+    },
+    "C15": {
+        "level": "other",
+        "rules": [("EE", 1, None), ("IC", 2, has("repr::cnf::")), ("WP", 2, has("repr::cnf::")),
+                  ("FS", 2, has("repr::cnf::", "assignment_weight"))],
+        "explanation": "Brute-force counting leaves its enumeration loop only when the assignment iterator is exhausted (EE); "
+                       "Cnf's variable count is max label + 1 (IC); the residual hasher's pos/neg tables are selected and "
+                       "indexed by the same literal (WP); counting accumulators are seeded with zero/one (FS). Not decided: "
+                       "agreement of eval / condition / is_sat_partial / the hasher's 'only then' direction with their "
+                       "definitions.",
+    },
+    "C16": {
+        "level": "proof",
+        "rules": [("GL", 9, hasnot("GL3", "component-cache"))],
+        "explanation": "Complete structural argument for the first sentence: Lru::get returns Some(e.val) only under the "
+                       "true edge of e.key == key (GL1); insert writes one Element{key,val,hash} of its own arguments into "
+                       "the slot that get reads, grow re-inserts whole triples (GL2); the adapter's hash is a function of "
+                       "(f,g,h) only (GL5); callers use one key and one hash for lookup and insert (GL4). Not decided: the "
+                       "consequence for builder results (needs C01).",
+    },
+    "C17": {
+        "level": "other",
+        "rules": [("DP", 12, has("from_sexpr", "VTreeSerializer", "from_dimacs")), ("IC", 1, has("from_dimacs"))],
+        "explanation": "The s-expression translation and the vtree mirror map each variant to its namesake with children in "
+                       "order (DP); DIMACS signs map Neg to false and Pos to true in both parsers (DP); the CNF parser "
+                       "subtracts one from the 1-based DIMACS variable (IC OneBased -> Index). Not decided: model-level "
+                       "equality of parsed formulas; JSON well-formedness (serde).",
+    },
     "C18": {
         "level": "proof",
         "rules": [("WF", 66, None)],
@@ -41,5 +135,12 @@ PROPS = {
                        "does not decide anything about the native operations themselves.",
         "assumptions": ["the WF table (rules/wf.py) states the intended native operation of each export",
                         "Box/pointer casts and robdd_builder_from_ptr are value-preserving marshalling"],
+    },
+    "C19": {
+        "level": "other",
+        "rules": [("MP", 6, None), ("SL", 3, has("count#", "entry"))],
+        "explanation": "In each tool the counted / serialised diagram is the compiled one, compiled on a builder whose order "
+                       "comes from the same formula; counts are taken on smooth(_, num_vars); weights are keyed by the "
+                       "expression's own variable mapping (MP, SL2). Not decided: the printed numbers.",
     },
 }
